@@ -613,3 +613,20 @@ GROUPS["g16"] += [
       "        if chars.len() != 2 {\n            return None;\n        }", "        if chars.len() < 2 {\n            return None;\n        }",
       "R-C17-whole:NumberSuffix::from_chars"),
 ]
+
+GROUPS["g17"] = [
+    # a LaTeX-style block ends at a blank line again (F15)
+    E("c04-lhs-blank-ends-latex", ["C04"], "harper-literate-haskell/src/masker.rs",
+      "(trimmed.is_empty() && !in_latex_env);", "trimmed.is_empty();",
+      "R-C04-lhs:create_mask:state-machine"),
+    # the block kind is remembered but never forgotten (the shape of seeded/C04-c)
+    E("c04-lhs-sticky-flag", ["C04"], "harper-literate-haskell/src/masker.rs",
+      "                    in_latex_env = in_code_env;", "                    in_latex_env = true;",
+      "R-C04-lhs:create_mask:state-machine"),
+]
+GROUPS["g18"] = [
+    # the space rule measures its span with the space count (the shape of seeded/C03-c)
+    E("c03-span-from-count", ["C03"], "harper-core/src/linting/spaces.rs",
+      "                        span: space.span,", "                        span: crate::Span::new_with_len(space.span.start, count),",
+      "R-C03-span:span-from-kind"),
+]
